@@ -453,6 +453,14 @@ class SInt:
     def __int__(self):
         return ctx().concretize_int(self.t)
 
+    def bit_length(self):
+        """int.bit_length as an ite chain (exact for |x| < 2**48, the stated magnitude cap)"""
+        a = z3.If(self.t >= 0, self.t, -self.t)
+        t = z3.IntVal(48)
+        for k in range(47, -1, -1):
+            t = z3.If(a < (1 << k), k, t)
+        return SInt.wrap(t)
+
     def __float__(self):
         raise Unsupported("float(SInt) into C code")
 
@@ -844,7 +852,19 @@ def sym_round(x, nd=None):
     return round(x, nd) if nd is not None else round(x)
 
 
+def _unshim(cls):
+    """a module whose `int`/`float` were rebound to the shims still writes isinstance(x, int)"""
+    if isinstance(cls, tuple):
+        return tuple(_unshim(k) for k in cls)
+    if cls is sym_int:
+        return int
+    if cls is sym_float:
+        return float
+    return cls
+
+
 def sym_isinstance(x, cls):
+    cls = _unshim(cls)
     if isinstance(x, SInt):
         return _cls_match(cls, int)
     if isinstance(x, SReal):
